@@ -52,10 +52,10 @@ def extra(ck, rec):
 
 
 vf.main_wrapper(lambda: swprop.run(
-    "C10", ["ScanWalk-F10-inodes.cfg", "ScanWalk-F10-cancel.cfg", "ScanWalk-F10-gitlim.cfg", "ScanWalk-F5-links.cfg"], [], [],
+    "C10", ["ScanWalk-F10-inodes.cfg", "ScanWalk-F10-cancel.cfg", "ScanWalk-F10-gitlim.cfg", "ScanWalk-F5-links.cfg", "ScanWalk-F8-rootsize.cfg"], [], [],
     ["stream/plain", "fallback/nasty"],
     "every tree (<= 3-4 nodes) x every inode limit 0..n+1 x 1..2 roots; x every cancellation point (before the scan, from the n-th AfterInodeVisited callback, "
-    "from inside the k-th Extract) x size limit with files below/at/above it x two listing orders; the harness observes Extract calls, AfterInodeVisited, "
+    "from inside the k-th Extract) x size limit with files below/at/above it x two listing orders; the size limit over two scan roots that hold the same paths with the sizes of small and oversize files swapped; the harness observes Extract calls, AfterInodeVisited, "
     "a standalone extractor and a detector (no further plugin after cancellation); non-trivial = limit or cancellation actually strikes or an Extract is expected",
     ["limits and cancellation combined with injected faults"],
     ["after cancellation from inside an Extract call the remaining extractors of the same file may or may not run (both accepted)",
